@@ -2719,6 +2719,64 @@ v("C04", "silent-keepalive-after-call", "httpgrpc/client.go",
   "func (w *clientStreamWrapper) CloseSend() error {\n\terr := w.ClientStream.CloseSend()\n\truntime.KeepAlive(w)\n\treturn err\n}", silent=True,
   why="behaviour-preserving: KeepAlive after the delegated call instead of deferred")
 
+# ------------------------------------------------------------------ D24, D25 and the wave-6 answers
+v("C05", "d24-invalid-message-no-cancel", "httpgrpc/client.go",
+  """			cs.rMu.Lock()
+			if cs.rErr == nil {
+				cs.rErr = err
+				cs.done = true
+				cs.cancel()
+			}
+			cs.rMu.Unlock()
+			return err""", "			return err", "R10", "cancels-the-call", "pre-fix D24: the undecodable-message error leaves the reply reader parked")
+v("C05", "d25-too-many-responses-no-cancel", "inprocgrpc/in_process.go",
+  "		s.cancel()\n		return s.last.err", "		return s.last.err", "R10", "cancels-the-call", "pre-fix D25: the handler stays blocked in SendMsg")
+v("C05", "silent-own-failure-built-inside-guard", "httpgrpc/client.go",
+  """			err = status.Error(codes.Internal, fmt.Sprintf("server sent invalid message: %v", err))
+			// this error ends the call: we won't be reading from the channel
+			// anymore, so we must cancel the context so that doHttpCall doesn't
+			// hang trying to write the next message to the channel
+			cs.rMu.Lock()
+			if cs.rErr == nil {
+				cs.rErr = err
+				cs.done = true
+				cs.cancel()
+			}
+			cs.rMu.Unlock()
+			return err""", """			cs.rMu.Lock()
+			defer cs.rMu.Unlock()
+			if cs.rErr == nil {
+				cs.rErr = status.Error(codes.Internal, fmt.Sprintf("server sent invalid message: %v", err))
+				cs.done = true
+				cs.cancel()
+			}
+			return cs.rErr""", silent=True, why="behaviour-preserving up to which of two terminal errors is reported: the sibling branch's shape")
+v("C01", "unary-request-resent-on-eof", "httpgrpc/client.go",
+  "	reply, err := ch.Transport.RoundTrip(r.WithContext(ctx))\n	if err != nil {\n		return statusFromContextError(err)\n	}",
+  "	reply, err := ch.Transport.RoundTrip(r.WithContext(ctx))\n	if err == io.EOF && ctx.Err() == nil {\n		r2, _ := http.NewRequest(\"POST\", reqUrlStr, bytes.NewReader(b))\n		r2.Header = h\n		reply, err = ch.Transport.RoundTrip(r2.WithContext(ctx))\n	}\n	if err != nil {\n		return statusFromContextError(err)\n	}",
+  "R11", "request-issued-at-most-once", "a unary request is sent a second time when the first round trip ends in EOF: a handled request is handled twice")
+v("C09", "retry-with-stale-timeout-header", "httpgrpc/client.go",
+  "	reply, err := ch.Transport.RoundTrip(r.WithContext(ctx))\n	if err != nil {\n		return statusFromContextError(err)\n	}",
+  "	reply, err := ch.Transport.RoundTrip(r.WithContext(ctx))\n	if err == io.EOF && ctx.Err() == nil {\n		r2, _ := http.NewRequest(\"POST\", reqUrlStr, bytes.NewReader(b))\n		r2.Header = h\n		reply, err = ch.Transport.RoundTrip(r2.WithContext(ctx))\n	}\n	if err != nil {\n		return statusFromContextError(err)\n	}",
+  "R1", "timeout-computed-per-request", "the re-sent request carries the timeout computed before the first attempt")
+v("C02", "final-frames-under-library-timer", "inprocgrpc/in_process.go",
+  "		_ = writeMessage(s.ctx, nil, s.responses, frame{err: err})",
+  "		tctx, tcancel := context.WithTimeout(s.ctx, 3*time.Second)\n		_ = writeMessage(tctx, nil, s.responses, frame{err: err})\n		tcancel()",
+  "R2", "no-library-timer", "the error frame is given up after three seconds: a slow client sees a clean end",
+  edits=[{"file": "inprocgrpc/in_process.go", "old": "		_ = writeMessage(s.ctx, nil, s.responses, frame{err: err})", "new": "		tctx, tcancel := context.WithTimeout(s.ctx, 3*time.Second)\n		_ = writeMessage(tctx, nil, s.responses, frame{err: err})\n		tcancel()"},
+         {"file": "inprocgrpc/in_process.go", "old": "	\"sync\"\n", "new": "	\"sync\"\n	\"time\"\n"}])
+v("C03", "set-trailer-refuses-by-content", "inprocgrpc/in_process.go",
+  "	if s.trailers == nil {\n		s.trailers = metadata.MD{}\n	}", "	if err := checkMD(md); err != nil {\n		return err\n	}\n	if s.trailers == nil {\n		s.trailers = metadata.MD{}\n	}",
+  "R1", "refuses-only-for-state", "trailers whose values contain a character the validator dislikes are dropped wholesale",
+  edits=[{"file": "inprocgrpc/in_process.go", "old": "	if s.trailers == nil {\n		s.trailers = metadata.MD{}\n	}", "new": "	if err := checkMD(md); err != nil {\n		return err\n	}\n	if s.trailers == nil {\n		s.trailers = metadata.MD{}\n	}"},
+         {"file": "inprocgrpc/in_process.go", "old": "var clientContextKey = ", "new": "func checkMD(md metadata.MD) error {\n	for k, vs := range md {\n		for _, v := range vs {\n			if strings.ContainsAny(v, \"~\\x7f\") {\n				return fmt.Errorf(\"bad value for %s\", k)\n			}\n		}\n	}\n	return nil\n}\n\nvar clientContextKey = "}])
+v("C03", "unary-fan-out-twice", "httpgrpc/client.go",
+  "	if stat := statFromResponse(reply); stat.Code() != codes.OK {", "	if len(reply.Trailer) > 0 {\n		if err := setMetadata(reply.Trailer, copts); err != nil {\n			return err\n		}\n	}\n	if stat := statFromResponse(reply); stat.Code() != codes.OK {",
+  "R3", "at-most-once", "a second pass of the metadata helper over the HTTP trailers wipes the header targets")
+v("C19", "go-file-import-path-cleaned", "cmd/protoc-gen-grpchan/protoc-gen-grpchan.go",
+  "gopoet.NewGoFile(path.Base(filename), pkg.ImportPath, pkg.Name)", "gopoet.NewGoFile(path.Base(filename), path.Clean(pkg.ImportPath), pkg.Name)", "R2", "file-package-identity",
+  "the file's own package path is normalised: its own types become foreign for go_package values like ./;pkg")
+
 
 def main():
     if os.path.isdir(OUT):
